@@ -543,6 +543,12 @@ epoll_dispatch(struct event_base *base, struct timeval *tv)
 
 		if (what & EPOLLERR) {
 			ev = EV_READ | EV_WRITE;
+			/* An error does not hide an early close that the kernel
+			 * reports in the same batch (e.g. a connection reset):
+			 * EV_CLOSED waiters must hear about it, as they do with
+			 * the poll backend. */
+			if (what & EPOLLRDHUP)
+				ev |= EV_CLOSED;
 		} else if ((what & EPOLLHUP) && !(what & EPOLLRDHUP)) {
 			ev = EV_READ | EV_WRITE;
 		} else {
